@@ -52,6 +52,9 @@ var defaultNoEffect = []string{
 
 // default pure interface methods (trusted: stable results that depend only on the receiver)
 var defaultPureMethods = []string{
+	"github.com/janelia-flyem/dvid/dvid.Point.Prod",
+	"github.com/janelia-flyem/dvid/dvid.Point.Value",
+	"github.com/janelia-flyem/dvid/dvid.Point.NumDims",
 	"github.com/janelia-flyem/dvid/dvid.Data.InstanceID",
 	"github.com/janelia-flyem/dvid/dvid.Data.DataName",
 	"github.com/janelia-flyem/dvid/dvid.Data.DataUUID",
@@ -255,6 +258,10 @@ func (e *Engine) verifyFunc(fn *ssa.Function, con *Contract) *VC {
 	if con != nil && con.Flags["safety_off"] {
 		vc.safetyOff = true
 		vc.note("safety_off: panic-freedom of this function is not checked")
+	}
+	if con != nil && con.Flags["requires_off"] {
+		vc.requiresOff = true
+		vc.note("requires_off: preconditions of callees under contract are ASSUMED here (their postconditions are used)")
 	}
 	if con != nil && con.Flags["calls_havoc"] {
 		vc.callsHavoc = true
